@@ -5,7 +5,8 @@
 (* real Truncate and records the facts that Trace_Truncate judges.             *)
 EXTENDS GenBase, FiniteSets
 
-CONSTANTS MaxAn, MaxNs, MaxAr, Shard, NShards
+CONSTANTS MaxAn, MaxNs, MaxAr, Shard, NShards,
+          Mode        \* "base": the OPT is one of four fixed ones; "opts": the OPT is drawn from the option universe below
 
 VARIABLE v
 
@@ -32,13 +33,76 @@ Outer(an, ns) == (Num(an) + 73 * Num(ns)) % K1
 Inner(c) == (Num(c.ar) + 73 * (c.opt + 4 * (c.optpos + 3 * (B2N(c.tc) + 2 * (B2N(c.compress) + 2 * (c.q + 5 * SelIdx(c.sel))))))) % K2
 
 \* q: question section 0 = one ordinary question, 1 = none, 2 = two questions, 3 = one question of 181 octets, 4 = one of 211 octets
-\* opt: 0 none, 1 bare, 2 with two options, 3 with a 300-octet padding option (with q = 3 header+question+OPT reach 512)
-Init == \E an \in Sec(MaxAn), ns \in Sec(MaxNs) :
+\* opt: 0 none, 1 bare, 2 with two options, 3 with a 300-octet padding option (with q = 3 header+question+OPT reach 512),
+\*      4 (mode "opts") with the options listed in field oo
+InitBase == \E an \in Sec(MaxAn), ns \in Sec(MaxNs) :
           /\ Outer(an, ns) = (Shard % K1)
           /\ \E ar \in Sec(MaxAr), opt \in 0..3, tc \in BOOLEAN, comp \in BOOLEAN, q \in 0..4 :
                \E optpos \in 0..(IF opt = 0 THEN 0 ELSE Len(ar)), sel \in Sel(Len(an) + Len(ns) + Len(ar)) :
                  /\ v = [an |-> an, ns |-> ns, ar |-> ar, opt |-> opt, optpos |-> optpos, tc |-> tc, compress |-> comp, q |-> q, sel |-> sel]
                  /\ Inner(v) = ((Shard \div K1) % K2)
+
+-----------------------------------------------------------------------------
+(* Mode "opts": the OPT record is drawn from the universe of EDNS0 options the  *)
+(* library knows, with boundary parameters.  What matters for C09 is that the  *)
+(* wire length of several of them is NOT a fixed function of the lengths of    *)
+(* the Go struct's fields (a client subnet packs ceil(netmask/8) address       *)
+(* octets of its 4/16, an empty EXPIRE and a zero TCP keep-alive pack nothing, *)
+(* UL drops a zero key lease, NSID/COOKIE are hex text of twice the length,    *)
+(* the reporting agent is a domain name ...), while Truncate reserves room for *)
+(* the OPT with Len().  An option is [k, a, b]; the harness gives the meaning: *)
+(*   subnet  a = family (0, 1, 2), b = source netmask                          *)
+(*   nsid / cookie / padding / esu   a = octets of data                        *)
+(*   ul      a = lease, b = key lease (0: not on the wire)                     *)
+(*   llq     a = opcode, b = lease life (always 18 octets)                     *)
+(*   dau / dhu / n3u   a = number of algorithm codes                           *)
+(*   expire  a = value, b = 1: the empty form                                  *)
+(*   keepalive  a = timeout (0: no octets)                                     *)
+(*   ede     a = info code, b = octets of extra text                           *)
+(*   local   a = option code, b = octets of data                               *)
+(*   reporting  a = 0: agent ".", 1: "agent.example.org.", 2: the same without the final dot *)
+(*   zoneversion  a = label count, b = octets of version                       *)
+O(k, a, b) == [k |-> k, a |-> a, b |-> b]
+Subnets == { O("subnet", 1, mk) : mk \in {0, 1, 7, 8, 9, 15, 16, 17, 20, 24, 25, 31, 32} }
+           \cup { O("subnet", 2, mk) : mk \in {0, 1, 8, 48, 56, 63, 64, 65, 120, 127, 128} }
+           \cup { O("subnet", 0, 0) }
+Others == { O("nsid", n, 0) : n \in {0, 1, 5, 64} } \cup { O("cookie", n, 0) : n \in {8, 16, 24, 40} }
+          \cup { O("ul", 3600, kl) : kl \in {0, 1, 7200} } \cup { O("llq", 1, 0), O("llq", 2, 3600) }
+          \cup { O(k, n, 0) : k \in {"dau", "dhu", "n3u"}, n \in {0, 1, 3} }
+          \cup { O("expire", 0, 0), O("expire", 86400, 0), O("expire", 0, 1), O("expire", 86400, 1) }
+          \cup { O("keepalive", t, 0) : t \in {0, 1, 600, 65535} }
+          \cup { O("padding", n, 0) : n \in {0, 1, 17, 128} }
+          \cup { O("ede", c, n) : c \in {0, 18}, n \in {0, 1, 30} }
+          \cup { O("esu", n, 0) : n \in {0, 20} }
+          \cup { O("local", c, n) : c \in {65001, 65534}, n \in {0, 7} }
+          \cup { O("reporting", a, 0) : a \in {0, 1, 2} }
+          \cup { O("zoneversion", 2, n) : n \in {0, 4} }
+Options == Subnets \cup Others
+\* the option lists: every option alone, every option before and after a fixed neighbour (the 4 octets of code + length
+\* are per option), a client subnet between two others
+OptLists == { <<o>> : o \in Options }
+            \cup { <<o, O("cookie", 8, 0)>> : o \in Options } \cup { <<O("ede", 18, 1), o>> : o \in Options }
+            \cup { <<O("nsid", 5, 0), s, O("keepalive", 0, 0)>> : s \in Subnets }
+
+\* the size selectors of this mode: the absolute sizes 0 / 511 / 513 / 65535 say nothing new about the options
+SelO(n) == { x \in Sel(n) : x.kind = "abs" => x.v = 512 }
+
+\* sharding in this mode: the option list and the size selector are NOT sharded - every shard holds every option list
+\* x every selector on its share of (sections, OPT position, flags, question section)
+Pair(an, ns) == Num(an) + 64 * Num(ns)
+QIdx(q) == CASE q = 0 -> 0 [] q = 1 -> 1 [] OTHER -> 2
+InnerO(c) == Num(c.ar) + 64 * (c.optpos + 3 * (B2N(c.tc) + 2 * (B2N(c.compress) + 2 * QIdx(c.q))))
+InitOpts == \E an \in Sec(MaxAn), ns \in Sec(MaxNs) :
+              /\ (Pair(an, ns) % K1) = (Shard % K1)
+              /\ \E ar \in Sec(MaxAr), tc \in BOOLEAN, comp \in BOOLEAN, q \in {0, 1, 3} :
+                   \E optpos \in 0..Len(ar) :
+                     LET c == [an |-> an, ns |-> ns, ar |-> ar, optpos |-> optpos, tc |-> tc, compress |-> comp, q |-> q] IN
+                     /\ ((InnerO(c) + 37 * (Pair(an, ns) \div K1)) % K2) = ((Shard \div K1) % K2)
+                     /\ \E oo \in OptLists, sel \in SelO(Len(an) + Len(ns) + Len(ar)) :
+                          v = [an |-> an, ns |-> ns, ar |-> ar, opt |-> 4, oo |-> oo, optpos |-> optpos, tc |-> tc,
+                               compress |-> comp, q |-> q, sel |-> sel]
+
+Init == IF Mode = "opts" THEN InitOpts ELSE InitBase
 Next == UNCHANGED v
 Out == Emit(v)
 =============================================================================
